@@ -113,3 +113,6 @@ Proof.
     destruct ((d =? 46) || (d =? 101) || (d =? 69)); [discriminate|].
     inversion P as [[H0 H1]]; rewrite H0; reflexivity.
 Qed.
+
+Lemma jprint_arr_head l : exists r, jprint (JArr l) = 91 :: r.
+Proof. simpl. eauto. Qed.
